@@ -39,14 +39,28 @@ def identity_ok(d):
     return True
 
 
-def impl_load(line):
+def load_path(xml, prefix, root, path):
+    """Load through a file at `path` (rewritten for every load): the package-level `load_xml` when the arguments are the
+    defaults it uses, else `from_xtce` given the path."""
+    import space_packet_parser
+    from space_packet_parser.xtce import definitions
+    with open(path, "wb") as fh:
+        fh.write(xml)
+    with warnings.catch_warnings():
+        warnings.simplefilter("ignore")
+        if prefix == "xtce" and root == "CCSDSPacket":
+            return space_packet_parser.load_xml(path)
+        return definitions.XtcePacketDefinition.from_xtce(path, xtce_ns_prefix=prefix, root_container_name=root)
+
+
+def impl_load(line, path=None):
     t = parse_sx(line)
     prefix = None if t[1] == "-" else uS(t[1])
     nsmap = xmlutil.parse_nsmap(t[2])
     root = uS(t[3])
     xml = xmlutil.to_text(t[4], nsmap)
     try:
-        d = load_text(xml, prefix, root)
+        d = load_text(xml, prefix, root) if path is None else load_path(xml, prefix, root, path)
     except RecursionError:
         return "err"
     except Exception:  # noqa: BLE001 - every exception is "rejected at load"
